@@ -108,14 +108,15 @@ def check_rigid(case):
                 .format(common.show(d, 200), dims))
 
 
-def mark_real(spec, names):
-    """ Flag the boxes called `names` (all boxes if None) as real-valued. """
+def mark_real(spec, names, flag="real"):
+    """ Flag the boxes called `names` (all boxes if None) as real-valued (or
+    with another flag of the tensor box specs). """
     layers = []
     for b, off in spec["layers"]:
         if b["k"] == "bubble":
-            b = dict(b, inside=mark_real(b["inside"], names))
+            b = dict(b, inside=mark_real(b["inside"], names, flag))
         elif b["k"] == "box" and (names is None or b["name"] in names):
-            b = dict(b, real=True)
+            b = dict(b, **{flag: True})
         layers.append([b, off])
     return dict(spec, layers=layers)
 
@@ -153,6 +154,11 @@ def tensor_cases(draw, tier):
     if draw(st.booleans()):
         real = None   # all of them
     spec, par = mark_real(spec, real), mark_real(par, real)
+    if draw(st.integers(0, 3)) == 0:
+        objs = draw(st.sets(st.sampled_from(gen.BOXNAMES), min_size=1,
+                            max_size=2))
+        spec, par = mark_real(spec, objs, "objarr"), mark_real(
+            par, objs, "objarr")
     return {"d": spec, "par": par,
             "whole": draw(st.sampled_from([None] + sorted(
                 classes.BUBBLE_FUNCS)))}
